@@ -33,6 +33,11 @@ BUILD_KINDS = {
     "asan0": [CLANG, "-std=c++17", "-O0", "-g0", "-fno-omit-frame-pointer",
               "-fsanitize=address,undefined", "-fno-sanitize=object-size", "-fno-sanitize-recover=all",
               "-D_GLIBCXX_ASSERTIONS", "-D" + GUARD],
+    # clang -O0 without sanitizers (secondary corpus configurations; hooks on)
+    "cl0": [CLANG, "-std=c++17", "-O0", "-g0", "-D_GLIBCXX_ASSERTIONS", "-D" + GUARD],
+    "gasan0": [GCC, "-std=c++17", "-O0", "-g0", "-fno-omit-frame-pointer",
+               "-fsanitize=address,undefined", "-fno-sanitize-recover=all",
+               "-D_GLIBCXX_ASSERTIONS", "-D" + GUARD],
     "gasan": [GCC, "-std=c++17", "-O1", "-g0", "-fno-omit-frame-pointer",
               "-fsanitize=address,undefined", "-fno-sanitize-recover=all",
               "-D_GLIBCXX_ASSERTIONS", "-D" + GUARD],
@@ -88,23 +93,24 @@ def tree_hash():
     return _tree_hash
 
 
-_common_hash = None
+_common_hash = {}
 
 
-def common_hash():
-    """Hash of /verif/cpp (all monitor sources and headers): any edit rebuilds."""
-    global _common_hash
-    if _common_hash is None:
+def common_hash(dirs=("common", "oracles", "mon", "ref")):
+    """Hash of the monitor sources a unit depends on (sub-directories of /verif/cpp): any edit rebuilds."""
+    dirs = tuple(sorted(dirs))
+    if dirs not in _common_hash:
         h = hashlib.sha1()
-        for d, dirs, files in sorted(os.walk(os.path.join(VERIF, "cpp"))):
-            dirs.sort()
-            for f in sorted(files):
-                p = os.path.join(d, f)
-                h.update(p.encode())
-                with open(p, "rb") as fh:
-                    h.update(fh.read())
-        _common_hash = h.hexdigest()[:12]
-    return _common_hash
+        for sub in dirs:
+            for d, dn, files in sorted(os.walk(os.path.join(VERIF, "cpp", sub))):
+                dn.sort()
+                for f in sorted(files):
+                    p = os.path.join(d, f)
+                    h.update(p.encode())
+                    with open(p, "rb") as fh:
+                        h.update(fh.read())
+        _common_hash[dirs] = h.hexdigest()[:12]
+    return _common_hash[dirs]
 
 
 def build_root():
@@ -138,7 +144,7 @@ class Unit:
     """One binary to build and run. src: path of the main C++ file (others may be listed in extra_src).
     text: if given, generated source written to the build directory first."""
 
-    def __init__(self, name, src=None, text=None, kind="asan", defs=(), args=(), shards=1, extra_src=(), timeout=900, env=None, libs=(), sharded=True):
+    def __init__(self, name, src=None, text=None, kind="asan", defs=(), args=(), shards=1, extra_src=(), timeout=900, env=None, libs=(), sharded=True, objs=()):
         self.name = name
         self.src = src
         self.text = text
@@ -152,11 +158,46 @@ class Unit:
         self.libs = list(libs)
         self.binary = None
         self.sharded = sharded
+        self.objs = list(objs)     # sources compiled once per build kind into cached object files
+        self.deps = ("common", "mon", "ref") if objs else ("common", "oracles")
+
+
+_obj_cache = {}
+_obj_lock = __import__("threading").Lock()
+
+
+def compile_object(src, kind, defs=()):
+    """Compile one grammar-independent source to an object file, once per (tree, flags, content)."""
+    flags = BUILD_KINDS[kind]
+    with open(src, "rb") as f:
+        key = sha(f.read(), common_hash(("common", "mon", "ref")), " ".join(flags), " ".join(defs))[:16]
+    odir = os.path.join(build_root(), "obj")
+    os.makedirs(odir, exist_ok=True)
+    out = os.path.join(odir, "%s-%s-%s.o" % (os.path.basename(src), kind, key))
+    with _obj_lock:
+        if out in _obj_cache:
+            return _obj_cache[out]
+        if not os.path.exists(out):
+            cmd = flags + ["-I" + os.path.join(REPO, "include"), "-I" + os.path.join(REPO, "src", "example", "pegtl"), "-I" + os.path.join(VERIF, "cpp")]
+            cmd += ["-D" + d for d in defs] + ["-c", src, "-o", out + ".tmp%d" % os.getpid()]
+            p = subprocess.run(cmd, stdout=subprocess.PIPE, stderr=subprocess.STDOUT, text=True)
+            if p.returncode != 0:
+                _obj_cache[out] = (None, "COMPILE FAILED (%s)\n%s\n%s" % (src, " ".join(cmd), p.stdout[-6000:]))
+                return _obj_cache[out]
+            os.replace(out + ".tmp%d" % os.getpid(), out)
+        _obj_cache[out] = (out, "")
+        return _obj_cache[out]
 
 
 def compile_unit(u):
     flags = BUILD_KINDS[u.kind]
     root = build_root()
+    objfiles = []
+    for o in u.objs:
+        of, err = compile_object(o, u.kind)
+        if of is None:
+            return (u, False, err)
+        objfiles.append(of)
     if u.text is not None:
         gdir = os.path.join(root, "gen")
         os.makedirs(gdir, exist_ok=True)
@@ -170,7 +211,7 @@ def compile_unit(u):
     else:
         with open(u.src, "rb") as f:
             srckey = sha(f.read())[:16]
-    key = sha(srckey, common_hash(), " ".join(flags), " ".join(u.defs), " ".join(u.extra_src), " ".join(u.libs))[:16]
+    key = sha(srckey, common_hash(u.deps), " ".join(flags), " ".join(u.defs), " ".join(u.extra_src), " ".join(u.libs))[:16]
     bdir = os.path.join(root, "bin")
     os.makedirs(bdir, exist_ok=True)
     out = os.path.join(bdir, "%s-%s-%s" % (u.name.replace("/", "_"), u.kind, key))
@@ -180,7 +221,7 @@ def compile_unit(u):
     cmd = flags + ["-I" + os.path.join(REPO, "include"), "-I" + os.path.join(REPO, "src", "example", "pegtl"),
                    "-I" + os.path.join(VERIF, "cpp"), "-Wno-unused-command-line-argument" if flags[0] == CLANG else "-w"]
     cmd += ["-D" + d for d in u.defs]
-    cmd += [u.src] + u.extra_src + ["-o", out + ".tmp%d" % os.getpid()] + u.libs
+    cmd += [u.src] + u.extra_src + objfiles + ["-o", out + ".tmp%d" % os.getpid()] + u.libs
     t0 = time.time()
     p = subprocess.run(cmd, stdout=subprocess.PIPE, stderr=subprocess.STDOUT, text=True)
     if p.returncode != 0:
@@ -337,6 +378,22 @@ def crash_key(r):
     return "%s|%s|%s" % (r.get("prop") or "C03", r.get("label", ""), kind)
 
 
+def select_cells(cells, limit=500):
+    """Evidence keeps every summary cell and as many per-rule / per-matrix-cell counters as fit."""
+    pri = {k: v for k, v in cells.items() if not (k.startswith("inv:") or k.startswith("ctx:"))}
+    rest = sorted((k, v) for k, v in cells.items() if k not in pri)
+    out = dict(sorted(pri.items())[:limit])
+    room = max(0, limit - len(out))
+    step = max(1, len(rest) // room) if room else 0
+    if step:
+        for k, v in rest[::step][:room]:
+            out[k] = v
+    out["(distinct cells observed)"] = len(cells)
+    out["(distinct ctx-matrix cells observed)"] = sum(1 for k in cells if k.startswith("ctx:"))
+    out["(distinct rule x mode x outcome tuples observed)"] = sum(1 for k in cells if k.startswith("inv:"))
+    return out
+
+
 def finish(prop, tier, seed, recs, errors, t0, rule, level_text=None, floors=None, extra_cov=None, exhaustive=None, assumptions=None, nontrivial_cells=None, replay_hint=None):
     """Classify violations against known findings, write replay + evidence, print verdict lines, return exit code."""
     known = [k for k in load_known() if k.get("property") == prop and k.get("status", "known") == "known"]
@@ -413,7 +470,7 @@ def finish(prop, tier, seed, recs, errors, t0, rule, level_text=None, floors=Non
     if evaluations < 1 or nontrivial < 2:
         inconclusive.append("monitor observed too little: evaluations=%d nontrivial=%d" % (evaluations, nontrivial))
     cov = {"evaluations": evaluations, "distinct_nontrivial": nontrivial, "rule": rule, "samples": samples[:12] or ["(none)"],
-           "observed": {k: v for k, v in sorted(cells.items())[:400]},
+           "observed": select_cells(cells),
            "known_findings_seen": nknown, "violation_keys": sorted(viols.keys())[:50]}
     if exhaustive is not None:
         cov["exhaustive"] = bool(exhaustive)
@@ -424,6 +481,9 @@ def finish(prop, tier, seed, recs, errors, t0, rule, level_text=None, floors=Non
           "tree": tree_hash(), "inconclusive": inconclusive}
     with open(os.path.join(VERIF, "evidence", "%s.json" % prop), "w") as f:
         json.dump(ev, f, indent=1)
+    if os.environ.get("VERIF_DEBUG"):
+        with open(os.path.join(BUILD, "last_cells_%s.json" % prop), "w") as f:
+            json.dump({"cells": cells, "violcount": violcount, "other": [r for r in recs if r.get("t") == "viol" and r.get("prop") != prop][:200]}, f, indent=1)
     for l in lines:
         print(l)
     print("%s: tier=%s seed=%s evaluations=%d distinct_nontrivial=%d violations=%d known=%d wall=%.1fs" % (prop, tier, seed, evaluations, nontrivial, nviol, nknown, time.time() - t0))
